@@ -10,6 +10,7 @@ import FrappyProofs.Lemmas.CommProtect
 import FrappyProofs.Lemmas.CommStateTrue
 import FrappyProofs.Lemmas.CommCallbacksIdent
 import FrappyProofs.Lemmas.CommTimeoutAll
+import FrappyProofs.Lemmas.CommGlue
 import FrappyModel.Generated.C16
 /-
 C16 — property theorems (nothing but property theorems and their non-vacuity examples).
@@ -1603,5 +1604,107 @@ example : Accepted findingCfg [] findingRun ∧ stateNotOverwrittenB findingRun 
 
 /-- … and the first half (the update `is_connected = false` is made before the detecting call returns) holds on it -/
 example : StateVisible findingRun := by unfold StateVisible; decide
+
+/-! ## `wait_before` is honoured before every line put on the wire (glue model `commPlan`, io.py:330-346) -/
+
+/-- nothing of the command is lost, doubled or reordered by cutting it into lines: the sends of one communicate, put
+together, are the command followed by the send terminator — for every terminator, with or without `wait_before` -/
+theorem send_plan_intact (w : Nat) (eolW cmd : Bytes) : (sendPlan w eolW cmd).flatten = cmd ++ eolW := by
+  unfold sendPlan commandLines
+  split
+  · exact splitAll_flatten eolW cmd.length cmd
+  · simp
+
+/-- with a pause owed before every line (`wait_before ≠ 0`) and a send terminator of one byte, every send of a
+communicate carries exactly ONE line (the clause `oneLineB` of the monitor `waitBeforeHonouredB`) -/
+theorem send_plan_one_line (w b : Nat) (cmd : Bytes) (hw : w ≠ 0) :
+    ∀ d ∈ sendPlan w [b] cmd, oneLineB [b] d = true := by
+  intro d hd
+  unfold sendPlan commandLines at hd
+  simp only [hw, ne_eq, not_false_eq_true, List.cons_ne_self, and_self, ↓reduceIte, List.mem_map] at hd
+  obtain ⟨p, hp, rfl⟩ := hd
+  have hfree := splitAll1_free b cmd.length cmd (Nat.le_refl _) p hp
+  simp [oneLineB, splitFirst1_line b p hfree]
+
+/-- a pause of `w` has passed since the last send -/
+def planPaced (w : Nat) : Bool → List PlanEv → Bool
+  | _, [] => true
+  | _, .slp d :: es => planPaced w (decide (w ≤ d)) es
+  | r, .flush :: es => planPaced w r es
+  | r, .send _ :: es => r && planPaced w false es
+
+theorem planFrom_paced (w : Nat) (hw : w ≠ 0) : ∀ (ds : List Bytes) (i : Nat) (r : Bool), planPaced w r (planFrom w i ds) = true
+  | [], i, r => by simp [planFrom, planPaced]
+  | d :: ds, i, r => by
+    have ih := planFrom_paced w hw ds (i + 1) false
+    by_cases hi : i = 0
+    · subst hi; simpa [planFrom, lineEvents, hw, planPaced] using ih
+    · simp [planFrom, lineEvents, hw, hi, planPaced, ih]
+
+/-- every send of a communicate comes after a pause of its own: between two sends of the plan (and before the
+first) the caller sleeps `wait_before` — for every terminator and every command -/
+theorem comm_plan_paced (w : Nat) (eolW cmd : Bytes) (hw : w ≠ 0) : planPaced w false (commPlan w eolW cmd) = true :=
+  planFrom_paced w hw _ 0 false
+
+/-- non-vacuity: a command without reply joined with a query, distinct terminators: two sends, a pause before each;
+the behaviour of a cut at the RECEIVE terminator (one send for both lines) is not a plan of the model and breaks the clause -/
+example : commPlan 200000 [13] [83, 13, 82] = [.slp 200000, .flush, .send [83, 13], .slp 200000, .send [82, 13]] ∧
+    oneLineB [13] [83, 13, 82, 13] = false ∧ oneLineB [13] [82, 13] = true := by decide
+
+/-- the quirk the transcription keeps: a command that ends with the terminator yields an empty last line — a bare
+terminator is sent; and with a terminator that overlaps itself a line may swallow part of the next terminator
+(`send_plan_one_line` is stated for terminators of one byte) -/
+example : sendPlan 1 [13] [65, 13] = [[65, 13], [13]] ∧
+    sendPlan 1 [97, 97] [97, 97, 97] = [[97, 97], [97, 97, 97]] ∧ oneLineB [97, 97] [97, 97, 97] = false := by decide
+
+/-- the clause for the transaction model (which sends the requests it is given, one send each): the pause.  Step level:
+`delays_honoured_partial_sleep` / `_wake` (the sleep before the flush is `wait_before` long and the caller goes on only
+when it is over) and `wait_before_partial` below; the run-level invariant is not proved (gap) -/
+def wait_before_paced_statement : Prop := ∀ cfg cbs evs, Accepted cfg cbs evs → pacedB cfg.waitBefore evs = true
+
+/-- with `wait_before ≠ 0` a caller that has taken the inner lock of communicate sleeps first (the flush and the send
+come after `slp wait_before` … `wake`, see `delays_honoured_partial_sleep` / `_wake`) -/
+theorem wait_before_partial (s s' : State) (t c : Nat) (hpc : (s.callers c).pc = .acqI) (hw : s.cfg.waitBefore ≠ 0)
+    (h : stepCaller s t c (.acq c) = some s') : (s'.callers c).pc = .slpWB := by
+  simp only [stepCaller, hpc, doAcqI] at h
+  split at h
+  · simp only [Option.some.injEq] at h; subst h; simp [hw, State.setC, State.acquire]
+  · simp at h
+
+/-! ## self-healing goes back to the same device (glue model `tcpInit`, asynconn.py:171-179) -/
+
+/-- every connect of a communicator — the first one and every reconnect — is made to the same port: the class-level
+default settings are only read, never consumed -/
+theorem connect_targets_same (up : Option Nat) : ∀ (n : Nat) (d : TcpSettings) (p : Nat),
+    p ∈ connectTargets up n d → p = (tcpInit up d).2
+  | 0, d, p, h => by simp [connectTargets] at h
+  | n + 1, d, p, h => by
+    simp only [connectTargets, List.mem_cons] at h
+    rcases h with h | h
+    · exact h
+    · have := connect_targets_same up n (tcpInit up d).1 p h
+      simpa [tcpInit] using this
+
+theorem connect_targets_length (up : Option Nat) : ∀ (n : Nat) (d : TcpSettings), (connectTargets up n d).length = n
+  | 0, _ => rfl
+  | n + 1, d => by simp [connectTargets, connect_targets_length up n]
+
+/-- … in the form of the monitor: on a log with n connect attempts the targets of the model satisfy `reconnectSameTargetB` -/
+theorem reconnect_same_target (up : Option Nat) (d : TcpSettings) (log : Log) :
+    ReconnectSameTarget ((connectTargets up (connectCount log) d).map fun p => (0, p)) log := by
+  unfold ReconnectSameTarget reconnectSameTargetB
+  simp only [List.length_map, connect_targets_length, beq_self_eq_true, Bool.true_and, List.all_eq_true, List.mem_map]
+  rintro a ⟨p, hp, rfl⟩
+  have hp' := connect_targets_same up _ d p hp
+  cases hn : connectCount log with
+  | zero => rw [hn] at hp; simp [connectTargets] at hp
+  | succ n => simp [connectTargets, hp']
+
+/-- non-vacuity: port from the class defaults (uri without port), three connects — and the behaviour of settings that
+are consumed by the first connect (the reconnects go to the SECoP default port) breaks the clause -/
+example : connectTargets none 3 ⟨some 7777⟩ = [7777, 7777, 7777] ∧ connectTargets (some 4001) 2 ⟨some 7777⟩ = [4001, 4001] ∧
+    connectTargets none 2 ⟨none⟩ = [Frappy.Generated.C16.secopDefaultPort, 10767] ∧
+    reconnectSameTargetB [(0, 7777), (0, 10767)] [⟨0, .connect 1 true true⟩, ⟨5, .connect 1 false true⟩] = false ∧
+    reconnectSameTargetB [(0, 7777), (0, 7777)] [⟨0, .connect 1 true true⟩, ⟨5, .connect 1 true true⟩] = true := by decide
 
 end Frappy.Props.C16
